@@ -127,6 +127,17 @@ var lineFaults = []faultKind{
 	{"undefined-identifier-in-parentheses", "{{ (\n nope\n) + 1 }}", true, 1},
 	{"undefined-identifier-in-each-source-index", "@each(q in [[1]][\n nope])x@end", true, 1},
 	{"division-by-zero-in-if-condition", "@if(1 ==\n 1 / 0)x@end", true, 1},
+	// faults in the clauses of a @for header that spans lines, and in the headers of other directives
+	{"undefined-identifier-in-for-post", "@for(i9 = 0;\n i9 < 2;\n i9 + nope)x@end", true, 2},
+	{"division-by-zero-in-for-post", "@for(j9 = 0; j9 < 2;\n j9 / 0)x@end", true, 1},
+	{"unknown-function-in-for-post", "@for(k8 = 0;\n k8 < 2;\n\n k8.nofn())x@end", true, 3},
+	{"mistyped-operand-in-for-post-assignment", "@for(m9 = 0; m9 < 2;\n m9 = m9 + \"s\")x@end", true, 1},
+	{"undefined-identifier-in-for-condition", "@for(n9 = 0;\n n9 < nope;\n n9++)x@end", true, 1},
+	{"undefined-identifier-in-for-init", "@for(p9 =\n nope; p9 < 2; p9++)x@end", true, 1},
+	{"retype-in-for-post", "@for(q9 = 0; q9 < 2;\n q9 = \"s\")x@end", true, 1},
+	{"undefined-identifier-in-breakif", "@each(q in [1])\n@breakIf(\n nope)\n@end", true, 2},
+	{"division-by-zero-in-continueif", "@each(q in [1])@continueIf(1 ==\n 1 / 0)@end", true, 1},
+	{"undefined-identifier-in-elseif", "@if(false)a@elseif(\n\n nope)b@end", true, 2},
 	// an object literal as directive argument, written over several lines, with a comma missing: the token that
 	// stands where the comma belongs is the unexpected one
 	{"unexpected-token-in-component-arguments", "@component(\"c\", {a: 1,\n b: 2\n c: 3})", false, 2},
